@@ -90,6 +90,7 @@ theorem acc_ids_ringStep (now : Nat) (fs : Files) (r : RingSt) (op : ROp)
   | cqnew => exact h
   | cqsync => exact h
   | readable => exact h
+  | sqinfo => exact h
   | next pick =>
     simp only [ringStep]
     split
@@ -260,6 +261,7 @@ theorem files_only_by_next (now : Nat) (fs : Files) (r : RingSt) (op : ROp) (h :
   | cqnew => rfl
   | cqsync => rfl
   | readable => rfl
+  | sqinfo => rfl
 
 example : (syncWrite ⟨[⟨[1, 2, 3], []⟩], [(0, true)]⟩ 0 1 [9]).1.inodes = [⟨[1, 9, 3], []⟩] := by decide
 
@@ -272,6 +274,7 @@ theorem depth_const (now : Nat) (fs : Files) (r : RingSt) (op : ROp) : (ringStep
   | cqnew => rfl
   | cqsync => rfl
   | readable => rfl
+  | sqinfo => rfl
   | next pick =>
     simp only [ringStep]
     split
